@@ -234,7 +234,7 @@ def register(PROPS, COMPONENTS):
         names.append(cname)
     PROPS["C07"] = dict(
         lean_files=["ConcVerif/Props/C07.lean", "ConcVerif/Props/C07_lr.lean", "ConcVerif/Props/C07_tripwire.lean",
-                    "ConcVerif/Props/C07_deferred.lean"],
+                    "ConcVerif/Props/C07_deferred.lean", "ConcVerif/Props/C07_trigger.lean"],
         components=names, stage="B", pre=selftest_hb,
         level_text="Lean 4 theorems (kernel-checked; any number of threads, locations and events) over a generic event model of "
                    "mutex / shared-mutex / condition-variable / atomic (with the memory order written in the source) / plain / "
@@ -257,7 +257,10 @@ def register(PROPS, COMPONENTS):
                    "races otherwise; TripWire: the trigger's release store synchronises with every acquire load that reads from "
                    "it, the model's know/msg publication ghost is sound for happens-before, every accepted client read / "
                    "overwriting write happens-after a write of the value read / overwritten; deferred_guarded: the closure of "
-                   "a queued task reaches the drainer through the queue mutex alone, for ANY orders of the pending flag. "
+                   "a queued task reaches the drainer through the queue mutex alone, for ANY orders of the pending flag; "
+                   "TriggerVariable: a load of triggered/activated that sees a non-initial value reads from a store of that value "
+                   "which happens-before it, so what the triggering thread did before trigger() is ordered before what the "
+                   "waiter does after the load that ended wait(). "
                    "Tied to the source on every run: the unmodified headers run against substituted std primitives (and the "
                    "plain-access tap) under a deterministic scheduler; every raw trace of every client is mapped to "
                    "happens-before events using the memory orders WRITTEN IN THE SOURCE and must pass the Lean checker, so a "
@@ -287,9 +290,11 @@ def register(PROPS, COMPONENTS):
                  "full race freedom, C07_lr*), TripWire (release store -> acquire load edge, soundness of the publication ghost, "
                  "write->read and write->write order of client data; NOT read->write: the model does not track which thread has "
                  "read a datum), deferred_guarded (only the queued closure through the queue mutex, C07_deferred_flag; the "
-                 "wrapped object under m is NOT a model-level theorem here)",
+                 "wrapped object under m is NOT a model-level theorem here), TriggerVariable (store -> load edge of both flags and "
+                 "publication through trigger()/wait(), C07_trigger_*; the model has no client-data events, so the statement is "
+                 "about the positions before the store / after the load)",
                  "covered through the checker on OBSERVED traces only (raceFree + its soundness, every run): deferred_guarded's "
-                 "wrapped object, TriggerVariable, DualMappedVector/SearchableObjectHolder/DelayedObjects, the read->write half of "
+                 "wrapped object, DualMappedVector/SearchableObjectHolder/DelayedObjects, the read->write half of "
                  "the TripWire client data; rcu_list (RCU log, link stores) and cow_guarded: PLACEHOLDER - their models are "
                  "being built on other branches, nothing model-level is claimed for them here",
                  "lr_guarded: the theorem needs only release on the store of m_readingLeft and on the counter decrement and "
